@@ -33,6 +33,7 @@ ASSUMPTIONS = [
   "all geoms are overlapping spheres (closed-form narrow phase), so presence/absence of a pair is decided by the filter alone",
   "bitmask alphabet {0,1,2,3} per contype/conaffinity (two bits); mocap bodies and flex are outside the alphabet",
   "nworld=2 (identical states); both worlds must report the same pair set",
+  "reported pair set of MJWarp = contacts carrying ContactType.CONSTRAINT; scenarios with collision sensors on every geom pair additionally keep filtered pairs in the contact array as sensor-only contacts",
 ]
 BUDGET = {"quick": 400, "thorough": 3000}
 
@@ -71,6 +72,10 @@ def scenarios(tier, seed):
       for ex in (0, 1):
         for pr in (0, 1):
           out.append(dict(fam="A", **t, filterparent=fp, exclude=[[0, 1]] if ex else [], pair=[[0, 1]] if pr else [], variant=variant))
+          if not pr:
+            # the same with a collision sensor (distance / normal / fromto) on the pair: the sensor keeps filtered pairs in the
+            # contact array, where they must not carry the CONSTRAINT bit
+            out.append(dict(fam="A", **t, filterparent=fp, exclude=[[0, 1]] if ex else [], pair=[], variant=variant, sens=1))
   # family B: 3 geoms, all 4096 masks in 16 chunks (contype of geom 0 and 1 fixed per chunk)
   topoB = [dict(parents=[0, 1, 0], jointed=[1, 1, 1], wg=0)]
   if tier == "thorough":
@@ -115,6 +120,8 @@ def scenarios(tier, seed):
               variant=variant,
             )
           )
+          if rev == 0:
+            out.append(dict(out[-1], nmask=max(1, nmask // 2), sens=1))
   return out
 
 
@@ -243,8 +250,10 @@ def _eval(c, xml, pred, stats, tag):
   d = mjw.make_data(mjm, nworld=2, nconmax=32)
   mjw.kinematics(m, d)
   mjw.collision(m, d)
-  got0 = util.mjw_contacts(d, 0)
-  got1 = util.mjw_contacts(d, 1)
+  # contacts kept only for collision sensors (ContactType.SENSOR without CONSTRAINT) are not part of the reported pair set
+  got0 = [k for k in util.mjw_contacts(d, 0) if int(k.get("type", 1)) & 1]
+  got1 = [k for k in util.mjw_contacts(d, 1) if int(k.get("type", 1)) & 1]
+  stats["sensor_only_contacts"] += sum(1 for k in util.mjw_contacts(d, 0) if not int(k.get("type", 1)) & 1)
   keys0 = sorted(tuple(sorted(int(x) for x in k["geom"])) for k in got0)
   keys1 = sorted(tuple(sorted(int(x) for x in k["geom"])) for k in got1)
   if keys0 != keys1:
@@ -316,6 +325,8 @@ def execute(scn):
     bodies = ([0] if t["wg"] else []) + list(range(1, len(t["parents"]) + 1))
     exb = [[bodies[0], bodies[1]]] if scn["exclude"] else []
     combos = [((c0, a0), (c1, a1)) for c0 in range(4) for a0 in range(4) for c1 in range(4) for a1 in range(4)]
+    if scn.get("sens"):
+      combos = combos[3::5]  # 51 of the 256 assignments (stride coprime to 4: every value of every mask occurs)
   elif scn["fam"] == "B":
     exb = []
     c0, c1 = scn["chunk"]
@@ -328,6 +339,12 @@ def execute(scn):
       combos.append(tuple(base[(g + v) % len(base)] for g in range(ng)))
   for masks in combos:
     xml, _ = build_xml(t, masks, exb, pairs, fp, v, scn.get("rev", 0))
+    if scn.get("sens"):
+      kinds = ("distance", "normal", "fromto")
+      sens = "".join(
+        f'<{kinds[(a + b + v) % 3]} name="s{a}{b}" geom1="g{a if (a + b) % 2 else b}" geom2="g{b if (a + b) % 2 else a}" cutoff="1"/>' for a, b in itertools.combinations(range(ng), 2)
+      )
+      xml = xml.replace("</mujoco>", f"<sensor>{sens}</sensor></mujoco>")
     pred = predicate(t, masks, exb, pairs, fp)
     _eval(c, xml, pred, stats, "m" + "".join(f"{a}{b}" for a, b in masks))
     if len(c.violations) >= 12:
